@@ -107,6 +107,8 @@ func (e *csvEncoder) Encode(writer io.Writer, node *CandidateNode) error {
 
 	csvWriter := csv.NewWriter(writer)
 	csvWriter.Comma = e.separator
+	// the csv writer buffers on its own unless the writer is a bufio.Writer already
+	defer csvWriter.Flush()
 
 	// node must be a sequence
 	if node.Kind != SequenceNode {
